@@ -18,3 +18,11 @@ Definition split_command (line : bytes) : bytes * bytes :=
   let l := cstr (strip_cr line) in
   let (v, rest) := split_space [] l in
   (lowers v, drop_spaces rest).
+
+(* the bytes up to the next LF, and what follows it; None at end of input *)
+Fixpoint take_line_aux (cur : bytes) (s : bytes) : option (bytes * bytes) :=
+  match s with
+  | [] => None
+  | c :: s' => if c =? LF then Some (rev cur, s') else take_line_aux (c :: cur) s'
+  end.
+Definition take_line (s : bytes) := take_line_aux [] s.
